@@ -31,6 +31,32 @@ def sample_files():
     return out
 
 
+def linecut_cases(rng, quick):
+    """PDB records cut short at EVERY column: for each record type (first 6 bytes, REMARK with its number) the first
+    occurrences over the sample files and data/all_records.pdb (one line of every record type the reader knows)."""
+    lines = []
+    seen = {}
+    files = [vlib.ROOT + '/data/all_records.pdb'] + [p for (p, ext) in sample_files() if ext in ('.pdb', '.ent')]
+    per_type = 1 if quick else 4
+    for path in files:
+        data = open(path, 'rb').read()[:65536]
+        if not (data.startswith(b'HEADER') or b'\nATOM  ' in data or b'\nHETATM' in data):
+            continue
+        pos = 0
+        for ln in data.split(b'\n'):
+            key = ln[:10] if ln.startswith(b'REMARK') else ln[:6]
+            if ln.startswith(b'REMARK   3') or ln.startswith(b'REMARK 200'):
+                key = ln[:10] + b'|' + ln[10:].split(b':')[0].strip()[:24]
+            k = seen.get(key, 0)
+            if k < per_type and len(ln) > 6:
+                seen[key] = k + 1
+                for col in range(0, len(ln) + 1):
+                    for pad in ((0,) if quick else (0, 1, 2)):
+                        lines.append('linecut\tpdb %d %s %d %d %d' % (rng.randint(0, 7), path, pos, col, pad))
+            pos += len(ln) + 1
+    return lines
+
+
 def small_inputs(rng, n):
     """Grammar-derived and random small inputs for the string-level entry points."""
     lines = []
@@ -127,6 +153,7 @@ def run(chk):
                 lines.append('file\t%s %d %s %d %d %d' % (kind, rng.randint(0, 7), path,
                                                          -1 if rng.random() < 0.7 else rng.randint(0, size),
                                                          rng.choice([1, 1, 2, 3, 5, 10, 30]), rng.randint(1, 10 ** 9)))
+    lines += linecut_cases(rng, quick)
     rng.shuffle(lines)
     res = vlib.correspond(chk, h, None, lines, timeout=3000,
                           env={'ASAN_OPTIONS': 'detect_leaks=0:abort_on_error=0:allocator_may_return_null=1:max_allocation_size_mb=2048'})
@@ -154,7 +181,7 @@ def run(chk):
                     replay={'harness': 'h_readers', 'line': line})
     chk.rule = ('(1) triplet / Hall / name / PIR parsers on arbitrary, grammar-derived and mutated bytes, exact comparison with the extracted models; '
                 '(2) every reader entry point and conversion under ASan+UBSan+alarm on the same small inputs and on every sample file of /repo/tests: '
-                'whole, truncated (quick: ~150 offsets per file incl. line starts and in-line cuts; thorough: every offset), and with 1-30 seeded byte/line mutations. '
+                'whole, truncated (quick: ~150 offsets per file incl. line starts and in-line cuts; thorough: every offset), and with 1-30 seeded byte/line mutations; every PDB record type (sample files + data/all_records.pdb) with one line cut short at every column. '
                 'non-trivial = the reader accepted the input (OK)')
     if not proved:
         chk.violate('proof', 'Properties_C02 ' + ','.join(getattr(chk, 'failed_theorems', [])),
